@@ -45,7 +45,8 @@ def check(ctx):
     sums = []
     races = []
     s1 = os.path.join(ctx.work, "pc1.json")
-    rc, out, _ = vf.run([exe, "pcache", "-dump", g["dump"], "-out", s1, "-seed", str(ctx.seed), "-stride", str(ctx.pick(3, 1))], 1800)
+    rc, out, _ = vf.run([exe, "pcache", "-dump", g["dump"], "-out", s1, "-seed", str(ctx.seed), "-stride", str(ctx.pick(3, 1)),
+                         "-api", str(ctx.pick(40, 200)), "-encscale", str(ctx.pick(6, 30))], 1800)
     if rc != 0:
         raise vf.Inconclusive("pcache replay failed:\n" + out[-2000:])
     sums.append(json.load(open(s1)))
